@@ -96,6 +96,25 @@ def gaps(text):
     return out
 
 
+LINE_KEEPING = [" /* c */", "/* x **/", " /* a */ /* b */", " // c", "\t// x */"]
+
+
+def line_keeping_layouts(g, noslash):
+    """layouts for a gap of blanks and newlines in an input WITH documentation comments: a plain comment is put in front of the
+    gap's first line end (so that it is the last thing on its line) or behind its last one; the line structure, and with it the
+    attachment of every documentation comment, stays as it was"""
+    if "\n" not in g or g.strip(" \t\r\n"):
+        return []
+    out = []
+    for c in LINE_KEEPING:
+        if noslash and c.lstrip().startswith("/"):
+            continue
+        out.append(c + g)
+    if g.endswith((" ", "\t", "\n")):
+        out.append(g + "/* c */ ")
+    return out
+
+
 def layouts_for(kind, a, b, rng, k):
     base = kind.split("|")[0]
     pool = {"full": LAYOUT_FULL, "nonl": LAYOUT_NONL, "pragma_in": LAYOUT_PRAGMA_IN, "line_end": LAYOUT_LINE_END}[base]
@@ -124,6 +143,13 @@ def valid_inputs(ctx, n_gen):
     for _ in range(n_gen):
         g = blocks.gen_program(rng, rng.choice([4, 8, 14, 30]))
         out.append(g.source())
+    # documented programs (the generator of C11): their line structure carries meaning, plain comments do not
+    from harness.props import c11
+    for _ in range(max(10, n_gen // 3)):
+        g = c11.DocGen(rng)
+        g.toplevel(rng.choice([2, 4, 8]))
+        out.append(g.source())
+    out += ["int a, /* first */\n    b; ///< doc b\nenum E {\n  A\n  , B ///< doc B\n};\n"]
     out += ["#pragma once\n#include <a.h>\nint x;\n#pragma pack(push, 1)\nstruct S { int a; };\n#pragma pack(pop)\n#include \"b/c.h\"\n",
             "#pragma omp parallel for schedule(static, 4)\nvoid f();\n", "int x = 1'000; auto y = 12_km + \"s\"_x; char c = 'a';\n"]
     return out
@@ -172,7 +198,8 @@ def search(ctx, boost=False):
     s = Search()
     s.rule = ("every valid input (test corpus + generated block programs + directive samples): token gaps x layout strings from the "
               "layout alphabet (blanks, tabs, LF, CRLF, block and line comments, backslash-newline, empty when the neighbours do not "
-              "fuse; line-end-preserving alphabets on #include/#pragma lines; newline-free alphabet when the input has doc comments); "
+              "fuse; line-end-preserving alphabets on #include/#pragma lines; when the input has doc comments a newline-free alphabet plus, for "
+              "gaps with a line end, plain comments written in front of / behind the line ends; inputs include the documented programs of C11); "
               "quick tier samples gaps and layouts, thorough tier takes every gap; oracle: ParsedData equal; non-trivial = layout differs "
               "from the original gap; distinct = distinct (input, gap, layout)")
     rng = ctx.rng
@@ -188,7 +215,13 @@ def search(ctx, boost=False):
         if per_input_gaps is not None and len(gs) > per_input_gaps:
             gs = rng.sample(gs, per_input_gaps)
         for (st, en, kind, a, b) in gs:
-            for lay in layouts_for(kind, a, b, rng, per_gap):
+            lays = layouts_for(kind, a, b, rng, per_gap)
+            if kind.split("|")[0] == "nonl" and "\n" in text[st:en]:
+                # the input has documentation comments and this gap has a line end: which declaration a comment trails or
+                # precedes depends on the lines, so only layouts that keep them are neutral
+                extra = line_keeping_layouts(text[st:en], "noslash" in kind)
+                lays = extra if ctx.thorough else rng.sample(extra, min(3, len(extra)))
+            for lay in lays:
                 s.evaluations += 1
                 s.count(kind.split("|")[0])
                 if lay != text[st:en]:
